@@ -586,6 +586,13 @@ def entry_points(ctx):
     R.rule("C17-D6 entry points hand bytes to the parser", 2, "file readers open in binary mode and pass the whole content")
     for q in ("InputOutputMixin.from_suit_file", "InputOutputMixin.from_suit_file_simplified"):
         f = repo.func("suit_generator.input_output", q)
-        src = ast.unparse(f.node)
-        R.check("C17-D6 entry points hand bytes to the parser", "open(file_name, 'rb')" in src and ".from_cbor(data)" in src and "data = fh.read()" in src,
-                ctx.fq(f), mod=f.module, node=f.node, function=ctx.fq(f), expected="open(file_name, 'rb'); from_cbor(fh.read())", found="not recognised")
+        fouts = [o for o in Evaluator(repo, inline_depth=0).outcomes(f) if o.kind == "return"]
+        whole = App("filebytes", (Sym("param:file_name"),))
+        ok = bool(fouts)
+        for o in fouts:
+            parses = [e.args[0] for e in o.effects if isinstance(e, App) and e.op == "eff:call" and isinstance(e.args[0], App) and e.args[0].op == "call"
+                      and isinstance(e.args[0].args[0], Ref) and getattr(e.args[0].args[0].obj, "name", "") == "from_cbor"]
+            opens = [e for e in o.effects if isinstance(e, App) and e.op == "eff:open"]
+            ok = ok and len(parses) == 1 and parses[0].args[-1] == whole and all(e.args[1] == Const("rb") for e in opens)
+        R.check("C17-D6 entry points hand bytes to the parser", ok,
+                ctx.fq(f), mod=f.module, node=f.node, function=ctx.fq(f), expected="open(file_name, 'rb'); from_cbor(<whole content>)", found="not recognised")
